@@ -253,7 +253,10 @@ func (r *run) auto() {
 		foreign = B.Addrs[0].Std
 	}
 	_, totalAll := r.coins("")
-	amounts := []int64{500, 30000, 50000000, totalAll / 2, totalAll / 3 * 2, totalAll / 6 * 5, totalAll - 200000, totalAll, totalAll + 1, 10*totalAll + 100000000}
+	// (the two amounts before totalAll leave, with the 10x relay fee as user fee, a change of
+	// 5000 and of 1 maxwell when every coin is needed: below the dust limit)
+	mrf := massutil.MinRelayTxFee().IntValue()
+	amounts := []int64{500, 30000, 50000000, totalAll / 2, totalAll / 3 * 2, totalAll / 6 * 5, totalAll - 200000, totalAll - 10*mrf - 5000, totalAll - 10*mrf - 1, totalAll, totalAll + 1, 10*totalAll + 100000000}
 	fees := []int64{0, massutil.MinRelayTxFee().IntValue(), 10 * massutil.MinRelayTxFee().IntValue()}
 	froms := []string{"", A.Addrs[0].Std, A.Addrs[1].Std, foreign}
 	changes := []string{"", A.Addrs[1].Std, S}
